@@ -34,6 +34,7 @@ ASSUMPTIONS = ["refresh_rate: humantime 2.4.0 (third party) is the oracle, it is
                "visit_u64, in [-2^63,0) to visit_i64, other numbers (floats, wider integers) to a visitor method the "
                "config types do not implement (rejected), strings to visit_str unchanged",
                "the other TimeTriggerConfig fields keep their defaults (the harness asserts it)"]
+RELEASE_TOO = True          # the sampled cases also run through the release-profile harness (see ./check)
 EXHAUSTIVE = {"quick": False, "thorough": False}
 TRUSTED = ["humantime 2.4.0 as the oracle of the refresh_rate family (direct comparison on the same literal)",
            "serde / serde_yaml / serde_json scalar resolution (modelled by the scalar form handed to the visitor, exercised "
